@@ -54,6 +54,7 @@ def verify_module(path, repo, timeout_ms=20000, workers=16, only=None, verbose=F
     report["functions"] = eng.functions_info
     report["dropped"] = {k: sorted(v) for k, v in eng.dropped.items()}
     report["stats"] = eng.stats
+    report["dead_calls"] = sorted(set(eng.dead_calls))
     report["time"] = time.time() - t0
     return report
 
